@@ -504,6 +504,74 @@ public:
     }
   }
 
+  // ---- node creations made on the graph itself (createNodeFromNode / createNodeOnEdge / createNodeFromEdge): no observer is the
+  // actor, so the new nodes and edges are known to the graph and to no association layer; the edge split notifies every observer
+  void modelSplitEdge(Id e, Id anchor, const std::string& what) {
+    MEdge me = m.edges.at(e);
+    IdV gone; for (auto& kv : m.edges) if ((kv.second.a == me.a && kv.second.b == me.b) || (!m.directed && kv.second.a == me.b && kv.second.b == me.a)) gone.push_back(kv.first);
+    for (Id x : gone) modelRemoveEdge(x);
+    MM(!m.nodes.count(anchor), what + ":fresh-node-id", "new node received the id of a live node");
+    m.nodes.insert(anchor);
+    Id e1 = g->getEdge(me.a, anchor), e2 = g->getEdge(anchor, me.b);
+    MM(!m.edges.count(e1) && !m.edges.count(e2) && (e1 != e2 || me.a == me.b), what + ":fresh-edge-id", "an edge of the split received the id of a live edge");
+    MEdge m1; m1.a = me.a; m1.b = anchor; m.edges[e1] = m1;
+    MEdge m2; m2.a = anchor; m2.b = me.b; m.edges[e2] = m2;
+  }
+  void modelHang(Id origin, Id n, const std::string& what) {
+    MM(!m.nodes.count(n), what + ":fresh-node-id", "new node received the id of a live node");
+    m.nodes.insert(n);
+    Id e = g->getEdge(origin, n);
+    MM(!m.edges.count(e), what + ":fresh-edge-id", "new edge received the id of a live edge");
+    MEdge me; me.a = origin; me.b = n; m.edges[e] = me;
+  }
+  void opGraphCreate(const Op& o) {
+    if (strict || m.nodes.size() + 2 > MAXNODES || m.edges.size() + 3 > MAXEDGES) { ctx.outcome("skip"); return; }
+    bool absent = (o.c & 2) != 0;
+    if (o.k == "gn") {
+      if (m.nodes.empty() && !absent) { ctx.outcome("skip"); return; }
+      if (absent) {
+        Id bad = 0; while (m.nodes.count(bad)) ++bad; bad += 40;
+        mustRaise("graph-createNodeFromNode:absent-origin", [&] { g->createNodeFromNode(bad); });
+        // not promised to be atomic: a node created before the link was refused stays, unlinked (re-synchronised)
+        for (Id x : g->getAllNodes()) if (!m.nodes.count(x)) { m.nodes.insert(x); ctx.probe("compound-create-left-unlinked-node"); }
+        ctx.fault("reject@k"); ctx.rejected(); return;
+      }
+      IdV v(m.nodes.begin(), m.nodes.end()); Id origin = v[static_cast<size_t>(o.a) % v.size()];
+      Id n = 0; mustReturn("graph-createNodeFromNode", [&] { n = g->createNodeFromNode(origin); });
+      modelHang(origin, n, "graph-createNodeFromNode");
+      ctx.probe("graph-level-node-from-node"); ctx.ok(); return;
+    }
+    // the two edge-based creators
+    const char* what = o.k == "ge" ? "graph-createNodeOnEdge" : "graph-createNodeFromEdge";
+    if (absent || m.edges.empty()) {
+      if (!absent) { ctx.outcome("skip"); return; }
+      Id bad = 0; while (m.edges.count(bad)) ++bad; bad += 60;
+      mustRaise(std::string(what) + ":absent-edge", [&] { if (o.k == "ge") g->createNodeOnEdge(bad); else g->createNodeFromEdge(bad); });
+      ctx.fault("reject@k"); ctx.rejected(); return;
+    }
+    IdV ev; for (auto& kv : m.edges) ev.push_back(kv.first);
+    Id e = ev[static_cast<size_t>(o.a) % ev.size()];
+    // an undirected self relation cannot be split (a-n and n-a would be the same undirected relation twice): the call raises after
+    // partial work, which the statement allows; not generated because the reference has no re-synchronisation for it
+    if (!m.directed && m.edges.at(e).a == m.edges.at(e).b) { ctx.probe("graph-level-split-of-undirected-self-relation-skipped"); ctx.outcome("skip"); return; }
+    bool known = false; for (auto& ob : obs) if (ob.e2h.count(e)) known = true;
+    if (known) ctx.probe("graph-level-split-of-an-associated-edge");
+    if (o.k == "ge") {
+      Id anchor = 0; mustReturn(what, [&] { anchor = g->createNodeOnEdge(e); });
+      modelSplitEdge(e, anchor, what);
+      ctx.probe("graph-level-node-on-edge");
+    } else {
+      Id n = 0; mustReturn(what, [&] { n = g->createNodeFromEdge(e); });
+      Id anchor = 0; bool found = false;
+      for (Id x : g->getAllNodes()) if (!m.nodes.count(x) && x != n) { anchor = x; MM(!found, std::string(what) + ":two-new-nodes", "more than two new nodes appeared"); found = true; }
+      MM(found, std::string(what) + ":two-new-nodes", "the node splitting the edge did not appear");
+      modelSplitEdge(e, anchor, what);
+      modelHang(anchor, n, what);
+      ctx.probe("graph-level-node-from-edge");
+    }
+    ctx.ok();
+  }
+
   void opLink(const Op& o) {
     size_t k = actor(o); MObs& ob = obs[k];
     IdV v = nodesOf(ob);
@@ -957,6 +1025,7 @@ public:
     }
     if (o.k == "cn") opCreate(o);
     else if (o.k == "cf") opCreateFrom(o);
+    else if (o.k == "gn" || o.k == "ge" || o.k == "gf") opGraphCreate(o);
     else if (o.k == "ln") opLink(o);
     else if (o.k == "ul") opUnlink(o);
     else if (o.k == "dn") opDelete(o);
@@ -1052,7 +1121,7 @@ public:
     i.rule = "plans: seeded histories of <=40 operations over <=8 nodes, <=20 edges and 1..3 observers of one graph (directed or undirected start, direction changes, with/without edge objects, indices set or allocated, absent arguments), preceded by an enumerated prefix of all histories up to length 4 (quick) / 5 (thorough) over a 24-letter alphabet on 3 node slots for both start directions and by 18 hand-written regression plans (minimal triggers of the defects this harness found, all repaired); non-trivial = >=3 accepted state-changing steps and >=1 edge present at some point; distinct = distinct fingerprint of the executed op-kind/outcome sequence";
     i.simTime = "steps (no clock exists in this component)";
     i.faultKinds = {"reject@k", "peer-gone", "addr-perm"};
-    i.probeNames = {"two-or-more-observers", "undirected-with-edges", "observer-copied", "observer-copied-with-indices", "observer-attached", "compound-create-left-unlinked-node", "reciprocal-link", "self-loop",
+    i.probeNames = {"graph-level-node-from-node", "graph-level-node-on-edge", "graph-level-node-from-edge", "graph-level-split-of-an-associated-edge", "two-or-more-observers", "undirected-with-edges", "observer-copied", "observer-copied-with-indices", "observer-attached", "compound-create-left-unlinked-node", "reciprocal-link", "self-loop",
                     "makeUndirected-rejected-reciprocal", "makeUndirected-with-edges", "makeDirected-with-edges", "unlink-notifies-other-observer", "unlink-reversed-direction-rejected", "delete-linked-node", "delete-node-with-incoming-edge",
                     "duplicate-index-rejected", "edge-index-set", "edge-index-in-use-node-index-free", "node-dissociated", "node-associated-later", "edge-associated-later", "absent-argument-query-raised", "absent-arg-forgotten-object", "absent-arg-foreign-object",
                     "getAnyEdge-found-reverse-direction", "leaf-with-reciprocal-neighbour", "index-view-queried",
@@ -1098,8 +1167,8 @@ public:
     p.cfg["asc"] = rng.chance(0.4) ? 1 : 0;
     bool faultsOff = rng.chance(0.2);
     long n = rng.chance(0.7) ? rng.range(4, 20) : rng.range(20, 40);
-    static const char* K[] = {"cn", "cf", "ln", "ul", "dn", "md", "mu", "cp", "ds", "ix", "rt", "as", "qa", "qd"};
-    std::vector<double> w = {3, 5, 6, 3, 2.5, 0.7, 0.7, 1.0, 0.4, 2.5, 0.5, 1.2, 1.0, 1.5};
+    static const char* K[] = {"cn", "cf", "ln", "ul", "dn", "md", "mu", "cp", "ds", "ix", "rt", "as", "qa", "qd", "gn", "ge", "gf"};
+    std::vector<double> w = {3, 5, 6, 3, 2.5, 0.7, 0.7, 1.0, 0.4, 2.5, 0.5, 1.2, 1.0, 1.5, 0.5, 0.5, 0.3};
     for (auto& x : w) if (rng.chance(0.25)) x *= rng.chance(0.5) ? 0 : 3;       // swarm
     w[0] = std::max(w[0], 1.0); w[1] = std::max(w[1], 1.0);
     if (faultsOff) w[12] = 0;
@@ -1108,7 +1177,8 @@ public:
       size_t k = i == 0 ? 0 : rng.weighted(w);
       Op o(K[k]); std::string kk = K[k];
       o.a = rng.below(8); o.b = rng.below(8); o.c = 0; o.d = rng.below(3);
-      if (kk == "cn") o.c = rng.chance(pAbs) ? 1 : 0;
+      if (kk == "gn" || kk == "ge" || kk == "gf") o.c = rng.chance(pAbs) ? 2 : 0;
+      else if (kk == "cn") o.c = rng.chance(pAbs) ? 1 : 0;
       else if (kk == "cf") o.c = (rng.chance(0.3) ? 1 : 0) | (rng.chance(pAbs) ? 2 : 0) | (rng.chance(pAbs) ? 4 : 0);
       else if (kk == "ln") o.c = (rng.chance(0.3) ? 1 : 0) | (rng.chance(pAbs / 2) ? 2 : 0) | (rng.chance(pAbs / 2) ? 4 : 0) | (rng.chance(0.06) ? 8 : 0) | (rng.chance(pAbs) ? 16 : 0) | ((!faultsOff && rng.chance(0.08)) ? 32 : 0);
       else if (kk == "ul") o.c = (rng.chance(pAbs) ? 2 : 0) | (rng.chance(pAbs * 2) ? 4 : 0) | (rng.chance(0.5) ? 8 : 0);
